@@ -298,7 +298,7 @@ def audit_theorems(group, module, theorems, timeout=600):
         axs = []
         for l in txt.splitlines():
             mm = re.match(r"^([\w.']+)\s*:", l)
-            if mm and l[0] not in " \t":
+            if mm and l[0] not in " \t" and mm.group(1) not in ("Axioms", "Fetching", "Opaque", "Transparent"):
                 axs.append(mm.group(1))
         res[t] = axs
     return res, out
